@@ -93,6 +93,24 @@ def invalid_requests(cfg, addr_of):
             yield ("sas", u, W.enc_values(t, (v0,)))
 
 
+def matrix_requests(cfg, addr_of):
+    """mixed-type configuration: for every tag every request type x {edge values, small value} as 1- and 2-value writes, plus a
+    whole read of every tag -- explored to depth 2, so that every accepted cross-type write is followed by every other one"""
+    for name, typ, length, _ in cfg:
+        n = 1 if length is None else length
+        yield ("rd", ("sym", name, None), n)
+        for rtyp in TS.TYPES:
+            rt = W.TYPE_CODE[rtyp]
+            if rt in (W.SSTRING, W.STRING):
+                continue
+            small = TS.SMALL[rtyp]
+            for v in TS.EDGE[rtyp]:
+                yield ("wt", ("sym", name, None), rt, (v,), None)
+                if n >= 2:
+                    yield ("wt", ("sym", name, None), rt, (small, v), None)
+            yield ("wf", ("sym", name, None), rt, (small,), n, 0)
+
+
 def get_rig(cfgkey):
     """fresh simulator per state expansion (see props/c03_tags.get_rig)"""
     typ, variant, nvals, seam, via_main = cfgkey
@@ -102,6 +120,9 @@ def get_rig(cfgkey):
         _rig["closed"] = [q for q, closed in TS.valid_requests(r.cfg, r.sim.addr_of, nvals, cross=False)
                           if q[0] in ("wt",) and q[1][0] == "sym" and q[1][1] == q[1][1].lower()]
         _rig["alphabet"] = list(invalid_requests(r.cfg, r.sim.addr_of))
+        if variant == "mixed":
+            _rig["closed"] = []
+            _rig["alphabet"] = list(matrix_requests(r.cfg, r.sim.addr_of))
     return r, _rig["closed"], _rig["alphabet"]
 
 
@@ -176,6 +197,8 @@ def expand(acc, item, tier, seed):
             for k, m in bad:
                 viol(k, m)
             if rig.state() != base:
+                if cfgkey[1] == "mixed" and acked:
+                    acc.succ.add((cfgkey, rig.state()))       # depth-bounded: every accepted write is a new starting point
                 for k, m in rig.seat(state):
                     viol(k, m)
     if alphabet:
@@ -194,6 +217,14 @@ def run(ctx):
         zero = "" if k[0] in ("SSTRING", "STRING") else (0.0 if k[0] in ("REAL", "LREAL") else 0)
         roots.append((k, tuple((name, tuple([zero] * (1 if ln is None else ln))) for name, _, ln, _ in cfg)))
     acc = explore.bfs(ctx, __name__, "expand", roots, chunk=1, splits=8)
+    # tags of different types in one simulator, every accepted cross-type write followed by every other request (depth 2)
+    mk = ("MIXED", "mixed", 2, "cm", False)
+    mcfg = TS.config("INT", "mixed")
+    mroot = tuple((name, tuple([0.0 if typ in ("REAL", "LREAL") else 0] * (1 if ln is None else ln))) for name, typ, ln, _ in mcfg)
+    acc.merge(explore.bfs(ctx, __name__, "expand", [(mk, mroot)], chunk=4, splits=2, max_depth=2 if ctx.quick else 3,
+                          max_states=None if ctx.quick else 4000))
+    acc.counters.pop("cap_hit", None)
+    acc.note("config 'mixed' (six tags of different types) is depth-bounded (2 quick / 3 thorough); the other configurations closed")
     acc.count("traces_validated_against_impl", acc.counters.get("transitions", 0))
     return acc
 
